@@ -512,6 +512,12 @@ func (x *Exec) ccall(e *CExpr, env *CEnv) *Val {
 		return ArrV("((as const (Array Int Bool)) false)", SArrB)
 	case "int", "uint64", "int64", "uint32", "int32":
 		return IntV(arg(0).S, nil)
+	case "lockheld":
+		// lockheld(): the symbolic executor knows Raft.mu to be held at this program point
+		if env.st.held == 1 {
+			return BoolV("true")
+		}
+		return BoolV("false")
 	case "allocated":
 		v := arg(0)
 		return BoolV(And("(>= "+v.S+" 0)", "(< "+v.S+" "+x.heapGet(env.st, allocKey, SInt)+")"))
@@ -675,7 +681,7 @@ func plainReadPatterns(body, sym string) []string {
 			seen[term] = true
 			out = append(out, term)
 		}
-		if len(out) >= 4 {
+		if len(out) >= 16 {
 			break
 		}
 	}
